@@ -121,7 +121,12 @@ fn mark(text: &str, d: &Dir, rules: &mut BTreeMap<String, usize>) -> String {
     for (k, r) in m.tries.iter().enumerate() {
         let k1 = (k + 1).to_string();
         let kp = format!("{}p", k + 1);
-        if d.qconv.iter().any(|q| *q == kp) || allp {
+        let kr = format!("{}r", k + 1);
+        if d.qconv.iter().any(|q| *q == kr) {
+            // `?` on a plain `Result` inside a fn returning `Poll<Result<..>>`
+            edits.push(Edit { range: r.clone(), text: ".__vp_qr()".into(), rule: "R16" });
+            used += 1;
+        } else if d.qconv.iter().any(|q| *q == kp) || allp {
             edits.push(Edit { range: r.clone(), text: ".__vp_qp()".into(), rule: "R16" });
             used += 1;
         } else if all || d.qconv.iter().any(|q| *q == k1) {
@@ -183,7 +188,7 @@ impl<'ast> Visit<'ast> for ReturnFinder {
     fn visit_expr_closure(&mut self, _: &'ast syn::ExprClosure) {}
     fn visit_expr_method_call(&mut self, n: &'ast syn::ExprMethodCall) {
         let m = n.method.to_string();
-        if m == "__vp_q" || m == "__vp_qp" {
+        if m == "__vp_q" || m == "__vp_qp" || m == "__vp_qr" {
             self.found = true;
         }
         syn::visit::visit_expr_method_call(self, n);
@@ -354,6 +359,13 @@ impl<'ast, 'a> Visit<'ast> for Pass<'a> {
                 self.edits.push(Edit {
                     range: br(n.span()),
                     text: format!("(match {} {{ Ok(__vp_v) => __vp_v, Err(__vp_e) => return Err(From::from(__vp_e)) }})", recv),
+                    rule: "R16",
+                });
+            } else if rest == "qr" {
+                let recv = self.s(br(n.receiver.span()));
+                self.edits.push(Edit {
+                    range: br(n.span()),
+                    text: format!("(match {} {{ Ok(__vp_v) => __vp_v, Err(__vp_e) => return Poll::Ready(Err(From::from(__vp_e))) }})", recv),
                     rule: "R16",
                 });
             } else if rest == "qp" {
